@@ -321,6 +321,14 @@ impl DynSampler {
     pub fn json_string(&self) -> String {
         each_d!(self, s => serde_json::to_string(s).unwrap())
     }
+    pub fn debug_string(&self) -> String {
+        each_d!(self, s => format!("{:?}", s))
+    }
+    /// the subgraph table as seen from outside: from the serde serialisation, or - if a change of
+    /// the serialised layout hides it there - from the derived Debug output
+    pub fn table_view(&self) -> Option<TableView> {
+        TableView::from_json(&self.json()).or_else(|| TableView::from_debug(&self.debug_string()))
+    }
     pub fn from_json_str(d: usize, text: &str) -> Result<DynSampler, String> {
         Ok(match d {
             1 => DynSampler::D1(serde_json::from_str(text).map_err(|e| e.to_string())?),
@@ -404,7 +412,103 @@ fn jf(v: &Value) -> f64 {
     v.as_f64().unwrap_or(f64::NAN)
 }
 
+/// value of `key: <value>` in a derived-Debug string, starting the search at `from`
+fn dbg_field<'a>(text: &'a str, key: &str, from: usize) -> Option<(&'a str, usize)> {
+    let pat = format!("{}: ", key);
+    let i = text[from..].find(&pat)? + from + pat.len();
+    let rest = &text[i..];
+    let mut depth = 0i32;
+    let mut end = rest.len();
+    for (k, ch) in rest.char_indices() {
+        match ch {
+            '[' | '{' | '(' => depth += 1,
+            ']' | '}' | ')' => {
+                if depth == 0 {
+                    end = k;
+                    break;
+                }
+                depth -= 1;
+            }
+            ',' if depth == 0 => {
+                end = k;
+                break;
+            }
+            _ => {}
+        }
+    }
+    Some((rest[..end].trim(), i + end))
+}
+
+fn dbg_f64(s: &str) -> f64 {
+    s.trim().parse::<f64>().unwrap_or(f64::NAN)
+}
+
 impl TableView {
+    /// fallback observation through `{:?}` (derived Debug of SampleGenerator)
+    pub fn from_debug(text: &str) -> Option<TableView> {
+        let tstart = text.find("table: TropicalSubgraphTable")?;
+        let mut loop_number = vec![];
+        let mut spanning = vec![];
+        let mut j = vec![];
+        let mut dod = vec![];
+        let mut pos = tstart;
+        while let Some(k) = text[pos..].find("TropicalSubgraphTableEntry {") {
+            let at = pos + k;
+            let (ln, p1) = dbg_field(text, "loop_number", at)?;
+            let (sp, p2) = dbg_field(text, "mass_momentum_spanning", p1)?;
+            let (jf, p3) = dbg_field(text, "j_function", p2)?;
+            let (gd, p4) = dbg_field(text, "generalized_dod", p3)?;
+            loop_number.push(ln.parse::<u64>().ok()?);
+            spanning.push(sp == "true");
+            j.push(dbg_f64(jf));
+            dod.push(dbg_f64(gd));
+            pos = p4;
+        }
+        if loop_number.is_empty() {
+            return None;
+        }
+        let (dim, _) = dbg_field(text, "dimension", pos)?;
+        let g0 = text.find("tropical_graph: TropicalGraph")?;
+        let (gdod, _) = dbg_field(text, "dod", g0)?;
+        let (nm, _) = dbg_field(text, "num_massive_edges", g0)?;
+        let (nl, _) = dbg_field(text, "num_loops", g0)?;
+        let (ext, _) = dbg_field(text, "external_vertices", g0)?;
+        let (cf, _) = dbg_field(text, "cached_factor", g0)?;
+        let mut topology = vec![];
+        let mut p = g0;
+        while let Some(k) = text[p..].find("TropicalEdge {") {
+            let at = p + k;
+            let (id, a1) = dbg_field(text, "edge_id", at)?;
+            let (l, a2) = dbg_field(text, "left", a1)?;
+            let (r, a3) = dbg_field(text, "right", a2)?;
+            let (w, a4) = dbg_field(text, "weight", a3)?;
+            let (m, a5) = dbg_field(text, "is_massive", a4)?;
+            topology.push((id.parse().ok()?, l.parse().ok()?, r.parse().ok()?, dbg_f64(w), m == "true"));
+            p = a5;
+        }
+        let (sig, _) = dbg_field(text, "loop_signature", 0)?;
+        let signature: Vec<Vec<i64>> = sig
+            .trim_start_matches('[')
+            .trim_end_matches(']')
+            .split("],")
+            .map(|row| row.replace(['[', ']'], "").split(',').filter_map(|x| x.trim().parse::<i64>().ok()).collect::<Vec<i64>>())
+            .collect();
+        let signature = if sig.trim() == "[]" { vec![] } else { signature };
+        Some(TableView {
+            loop_number,
+            spanning,
+            j,
+            dod,
+            cached_factor: dbg_f64(cf),
+            dimension: dim.parse().ok()?,
+            graph_dod: dbg_f64(gdod),
+            num_loops: nl.parse().ok()?,
+            num_massive: nm.parse().ok()?,
+            signature,
+            topology,
+            externals: ext.trim_start_matches('[').trim_end_matches(']').split(',').filter_map(|x| x.trim().parse::<u64>().ok()).collect(),
+        })
+    }
     pub fn from_json(v: &Value) -> Option<TableView> {
         let t = v.get("table")?;
         let entries = t.get("table")?.as_array()?;
